@@ -14,6 +14,12 @@ import Bng.Model.Index
                                         held inside allocator.ReleaseIPv4, i.e. between its two critical sections;
                                         `ok`: no address to release, the call ran through)
     tresume pN                      => ok | noref                    (let the parked call finish)
+    mutown pN <mK|m-|aK|a->         => ok | noobj     (state.Store: the caller writes a field of the object it LAST handed
+                                        to Create*/Update* for pN and calls nothing; the store follows exactly when it
+                                        kept the caller's pointer — leases, sessions, NAT bindings; not subscribers)
+    mutget pN <mK|m-|aK|a->         => ok | none      (the caller writes a field of the object Get* returned: that IS the
+                                        stored record, for every kind)
+    updsame pN                      => ok | notfound | noobj          (Update* with the SAME object the caller holds)
     get pN                          => pN <mK|-> <aK|-> | none
     bymac mK                        => pN <mK|-> <aK|-> | none | dangling
     byip aK                         => pN <mK|-> <aK|-> | none | dangling
@@ -35,6 +41,11 @@ structure St where
   dead : Bool := false
   model : Index.State := {}
   mon : Index.Mon := {}
+  /-- the CALLER's objects (not store state): per primary id the record last handed to Create*/Update* -/
+  own : AMap Nat Rec := []
+  /-- primaries / keys that were written through an aliasing pointer (finding KF-store-alias) -/
+  pokedIds : List Nat := []
+  pokedKeys : List (Bool × Nat) := []
 
 def showKey (tag : Char) : Option Nat → String
   | some v => s!"{tag}{v}"
@@ -100,6 +111,13 @@ def parseOp (toks : List String) : Option Op :=
   | ["byip", a] => (parseTagged 'a' a).map (.byKey true)
   | ["list"] => some .list
   | ["load", l] => (parseLoad l).map .load
+  | _ => none
+
+/-- field token of the aliasing ops: `m3`, `m-`, `a2`, `a-` -/
+def parseField (s : String) : Option (Bool × Option Nat) :=
+  match s.toList with
+  | 'm' :: rest => if rest == ['-'] then some (false, none) else (parseTagged 'm' s).map fun v => (false, some v)
+  | 'a' :: rest => if rest == ['-'] then some (true, none) else (parseTagged 'a' s).map fun v => (true, some v)
   | _ => none
 
 def parseRec (toks : List String) : Option (Nat × Rec) :=
@@ -220,18 +238,89 @@ def step (st : St) (toks : List String) (impl : String) : St × LineResult :=
         ({ st with dead := true },
          { modelObs := impl, viols := vs.map fun v => (v.name, "none", v.detail) })
       | _ =>
-      match parseOp toks with
+      -- the caller-side operations of state.Store: translated into model operations with the caller's kept object
+      let aliasOp : Option (Option Op × String × AMap Nat Rec) :=
+        if !c.accepts (.poke 0 false none) then none else
+        match toks with
+        | ["mutown", id, f] =>
+          (match parseTagged 'p' id, parseField f with
+           | some id, some (slot, w) =>
+             (match AMap.lookup st.own id with
+              | none => some (none, "noobj", st.own)
+              | some r =>
+                some (if c.aliasOwn then some (.poke id slot w) else none, "ok", AMap.insert st.own id (r.set slot w)))
+           | _, _ => none)
+        | ["mutget", id, f] =>
+          (match parseTagged 'p' id, parseField f with
+           | some id, some (slot, w) =>
+             let own' := match c.aliasOwn, AMap.lookup st.own id, AMap.lookup st.model.prim id with
+               | true, some r, some _ => AMap.insert st.own id (r.set slot w)
+               | _, _, _ => st.own
+             some (some (.poke id slot w), "", own')
+           | _, _ => none)
+        | ["updsame", id] =>
+          (match parseTagged 'p' id with
+           | some id =>
+             (match AMap.lookup st.own id with
+              | none => some (none, "noobj", st.own)
+              | some r => some (some (.update id r.k0 r.k1), "", st.own))
+           | none => none)
+        | _ => none
+      -- NAT bindings always carry both endpoints: clearing one through a pointer is not driven
+      let natClear := c.accepts (.list) == false && (match toks with
+        | [k, _, f] => (k == "mutown" || k == "mutget") && (f == "m-" || f == "a-")
+        | _ => false)
+      if natClear then (st, { modelObs := "badop" }) else
+      let parsed : Option (Option Op × String × AMap Nat Rec) := match aliasOp with
+        | some x => some x
+        | none => (parseOp toks).map fun op => (some op, "", st.own)
+      match parsed with
       | none => (st, { modelObs := "badop" })
-      | some op =>
+      | some (none, fixedObs, own') =>
+        -- nothing reaches the store (the caller has no such object, or its object is not aliased by the store)
+        ({ st with own := own' }, { modelObs := fixedObs })
+      | some (some op, fixedObs, own') =>
         let (m', o) := Index.step c st.model op
         if o == .badop then (st, { modelObs := "badop" }) else
-        let ev := event op impl
+        let shown := if fixedObs.isEmpty then showObs o else fixedObs
+        -- the monitor sees what the API accepted: a pointer write is no API call (`nop`); `updsame` is an update
+        let isPoke := match op with | .poke _ _ _ => true | _ => false
+        let ev := if isPoke then Ev.nop else event op impl
         let (mon', vs) := Index.check st.mon ev
-        -- a verdict is attributed to a recorded finding only when that finding's narrow clause holds on the
-        -- monitor's bookkeeping as it was BEFORE this line
-        ({ st with model := m', mon := mon' },
-         { modelObs := showObs o,
-           viols := vs.map fun v => (v.name, clauseOf c st.mon op ev v, v.detail) })
+        -- the caller's object of a created / freshly updated primary is the record it handed over
+        let own'' := match op, o, toks with
+          | .create _ k0 k1, .okId nid, _ => AMap.insert own' nid { k0 := k0, k1 := k1 }
+          | .update id k0 k1, .ok, "update" :: _ => AMap.insert own' id { k0 := k0, k1 := k1 }
+          | _, _, _ => own'
+        -- bookkeeping of finding KF-store-alias: which primaries / keys were written through an aliasing pointer
+        let (pIds, pKeys) := match op, o with
+          | .poke id slot w, .ok =>
+            (id :: st.pokedIds,
+             (match w with | some v => [(slot, v)] | none => []) ++
+             (match AMap.lookup st.mon.live id with
+              | some r => (match r.key slot with | some v => [(slot, v)] | none => [])
+              | none => []) ++
+             (match AMap.lookup st.model.prim id with
+              | some r => (match r.key slot with | some v => [(slot, v)] | none => [])
+              | none => []) ++ st.pokedKeys)
+          | _, _ => (st.pokedIds, st.pokedKeys)
+        let aliasExcuse := fun (v : Index.V) => match ev with
+          | .got id _ => st.pokedIds.contains id
+          | .byKey slot key r =>
+            st.pokedKeys.contains (slot, key) ||
+            (match r with | .found id _ => st.pokedIds.contains id | _ => false)
+          | .put id _ => st.pokedIds.contains id || (match v.key with | some k => st.pokedKeys.contains k | none => false)
+          | .listed _ => false
+          | _ => false
+        -- a verdict is attributed to a recorded finding only when (1) that finding's narrow clause holds on the
+        -- bookkeeping as it was BEFORE this line and (2) the MODEL reproduces the implementation's answer on this
+        -- line — an answer the model of the unchanged code does not predict is a regression, never the finding
+        let clause := fun (v : Index.V) =>
+          if shown != impl then "none" else
+          let base := clauseOf c st.mon op ev v
+          if base != "none" then base else if aliasExcuse v then "KF-store-alias" else "none"
+        ({ st with model := m', mon := mon', own := own'', pokedIds := pIds, pokedKeys := pKeys },
+         { modelObs := shown, viols := vs.map fun v => (v.name, clause v, v.detail) })
 
 def component : Component := { σ := St, init := {}, step := step }
 
